@@ -36,12 +36,16 @@ var c19CmdSeq int64
 var c19CmdMu sync.Mutex
 
 func c19Command(c *miniClient, ct packet.CommandType, body any) c19CmdOut {
+	return c19CommandT(c, ct, body, 5*time.Second)
+}
+
+func c19CommandT(c *miniClient, ct packet.CommandType, body any, wait time.Duration) c19CmdOut {
 	b, _ := json.Marshal(body)
 	c19CmdMu.Lock()
 	c19CmdSeq++
 	id := fmt.Sprintf("c19-%d", c19CmdSeq)
 	c19CmdMu.Unlock()
-	resp, _, _ := c.Command(&packet.CommandPacket{CommandType: ct, CommandId: id, CommandBody: string(b)}, 5*time.Second)
+	resp, _, _ := c.Command(&packet.CommandPacket{CommandType: ct, CommandId: id, CommandBody: string(b)}, wait)
 	var out c19CmdOut
 	if resp == nil {
 		return out
@@ -174,6 +178,47 @@ func TestVerifC19Commands(t *testing.T) {
 					run.Violation("C19:cmd|refused-delete-changed-owner|store="+kind, map[string]any{"name": full, "owner": cl[win].ClientID, "now": c, "routes": ok})
 				}
 			}
+			// phase 2b: requesters with NO bound client (a connection that never
+			// authenticated, and one that only asked for a challenge for the owner's id)
+			// name the winner's mapping id / claim the name: nothing may change. The
+			// verdict is the EFFECT (who owns the name afterwards), not the reply — an
+			// unanswered command (short wait) is fine.
+			if round%3 == 0 {
+				for ri, rq := range []string{"unauthenticated", "challenge-only-as-owner"} {
+					ac, err := n.Connect(fmt.Sprintf("198.51.100.%d:%d", 200+ri, 45000+ri))
+					if err != nil || ac == nil {
+						run.Count("unbound_connect_failed", 1)
+						continue
+					}
+					if rq == "challenge-only-as-owner" {
+						_, _ = ac.Phase1(cl[win].ClientID, "control")
+					}
+					ad := c19CommandT(ac, packet.HTTPDomainDelete, packet.HTTPDomainDeleteRequest{MappingID: outs[win].MappingID}, 150*time.Millisecond)
+					aclaim := c19CommandT(ac, packet.HTTPDomainCreate, packet.HTTPDomainCreateRequest{TargetURL: "http://evil.lan:6666", Subdomain: sub, BaseDomain: base}, 150*time.Millisecond)
+					run.Count("unbound_requests", 2)
+					if ad.answered {
+						run.Count("unbound_requests_answered", 1)
+					}
+					c, tg, ok := owner()
+					if ad.answered && ad.Success {
+						run.Violation("C19:cmd|non-owner-delete-succeeded|requester=unbound|store="+kind, map[string]any{"name": full, "requester": rq, "owner": cl[win].ClientID, "response": ad.raw, "still_routes": ok})
+					}
+					if aclaim.answered && aclaim.Success {
+						run.Violation("C19:cmd|double-owner|requester=unbound|store="+kind, map[string]any{"name": full, "requester": rq, "owner": cl[win].ClientID, "response": aclaim.raw})
+					}
+					if !ok || c != cl[win].ClientID || tg != wantTarget(win) {
+						run.Violation("C19:cmd|unbound-requester-changed-owner|store="+kind, map[string]any{"name": full, "requester": rq, "owner": cl[win].ClientID, "routes": ok, "now_client": c, "now_target": tg, "delete_response": ad.raw, "claim_response": aclaim.raw})
+					} else {
+						run.Count("unbound_requests_left_owner_intact", 1)
+					}
+					// and the name is still taken for everybody else
+					ag := c19Command(cl[other], packet.HTTPDomainCreate, packet.HTTPDomainCreateRequest{TargetURL: target(other), Subdomain: sub, BaseDomain: base})
+					if ag.answered && ag.Success {
+						run.Violation("C19:cmd|double-owner|store="+kind, map[string]any{"name": full, "owner": cl[win].ClientID, "second": cl[other].ClientID, "after_unbound_requester": rq, "response": ag.raw})
+						break
+					}
+				}
+			}
 			// a second claim while owned must be refused
 			again := c19Command(cl[other], packet.HTTPDomainCreate, packet.HTTPDomainCreateRequest{TargetURL: target(other), Subdomain: sub, BaseDomain: base})
 			if again.answered && again.Success {
@@ -212,6 +257,7 @@ func TestVerifC19Commands(t *testing.T) {
 	run.Floor("nonowner_deletes_refused", 200)
 	run.Floor("claims_refused_owned", 200)
 	run.Floor("reclaims_ok", 200)
+	run.Floor("unbound_requests_left_owner_intact", 100)
 }
 
 func c19Raw(outs []c19CmdOut) []string {
